@@ -231,6 +231,8 @@ pub fn gen_scenario(rng: &mut Rng, max_classes: usize) -> Scenario {
     for c in &mut classes {
         if c.module.is_some() { continue; }
         let this = c.this_class.clone();
+        // a record component has a field of the same name and type (as javac emits it)
+        if let Some(rcs) = &c.record { for rc in rcs.clone() { if !c.fields.iter().any(|f| f.name == rc.name && f.desc == rc.desc) { c.fields.push(Field { access: 0x0012, name: rc.name.clone(), desc: rc.desc.clone(), ..Default::default() }); } } }
         if rng.chance(1, 2) { let n = format!("{}{}", rng.pick(&["RED", "GREEN", "A", "名"]), if rng.bool() { "" } else { "_1" }); c.fields.push(Field { access: 0x4019, name: JS::new(&n), desc: obj_desc(&this), ..Default::default() }); tags.insert("enum constant".into()); }
         if !c.fields.is_empty() && rng.chance(1, 3) { let f = rng.pick(&c.fields).clone(); let d = if f.desc.0 == b"J" { JS::new("I") } else if rng.bool() { JS::new("J") } else { obj_desc(rng.pick(&pool)) }; if d != f.desc { c.fields.push(Field { access: f.access, name: f.name.clone(), desc: d, ..Default::default() }); tags.insert("same field name, two descriptors".into()); } }
         let plain: Vec<usize> = c.methods.iter().enumerate().filter(|(_, m)| !is_special(&m.name)).map(|(i, _)| i).collect();
